@@ -335,3 +335,182 @@ func TestC02UnsubStorm(t *testing.T) {
 		}
 	}
 }
+
+// ---------------------------------------------------------------------------------------------
+// scheduled interleavings: 2-3 publishers advanced one user-code yield point at a time by a
+// controller that also runs complete registry operations in between — a serial schedule chosen by
+// the PRNG, i.e. one interleaving at yield-point granularity per case, reproducible from the seed.
+
+type schedWorker struct {
+	id      int
+	eid     uint64
+	release chan struct{}
+	done    bool
+}
+
+type schedMsg struct {
+	w      *schedWorker
+	point  string
+	finish bool
+}
+
+func TestC02Schedules(t *testing.T) {
+	run := vk.New("C02", "schedules")
+	defer run.Finish()
+	all := evt.Drivers()
+	n := run.Scale(2500, 80000)
+	for i := 0; i < n; i++ {
+		rng := run.Rand(uint64(i))
+		drivers := conc.SameShardTypes(all, 2, rng.Uint64())
+		var w *conc.World
+		obs := &gateObs{}
+		idOf := func(ev any) (uint64, bool) {
+			for _, d := range drivers {
+				if reflect.TypeOf(ev) == d.RType() {
+					return d.IDOf(ev)
+				}
+			}
+			return 0, false
+		}
+		w = conc.NewWorld(drivers, uint64(i), true,
+			ebu.WithObservability(obs),
+			ebu.WithBeforePublish(func(_ reflect.Type, ev any) {
+				if id, ok := idOf(ev); ok && w.Gate != nil {
+					w.Gate("before", 0, id)
+				}
+			}),
+			ebu.WithAfterPublishContext(func(_ context.Context, _ reflect.Type, ev any) {
+				if id, ok := idOf(ev); ok && w.Gate != nil {
+					w.Gate("after", 0, id)
+				}
+			}))
+		obs.w = w
+		// registry: 2-4 synchronous handlers per type (plain / once / filtered / context-aware)
+		alloc := map[[2]int]int{}
+		mk := func(tt int) *conc.Reg {
+			ctxAware := rng.IntN(4) == 0
+			k := [2]int{tt, 0}
+			if ctxAware {
+				k[1] = 1
+			}
+			c := alloc[k]
+			alloc[k] = c + 1
+			return &conc.Reg{T: tt, Class: c, Ctx: ctxAware, Once: rng.IntN(3) == 0, Filter: rng.IntN(3) == 0}
+		}
+		var pre []*conc.Reg
+		for tt := 0; tt < 2; tt++ {
+			for k := 2 + rng.IntN(3); k > 0; k-- {
+				r := mk(tt)
+				pre = append(pre, r)
+				w.Subscribe(90, r)
+			}
+		}
+		for w.NextEID() < 20 {
+		}
+		// workers
+		W := 2 + rng.IntN(2)
+		msgs := make(chan schedMsg)
+		workers := make([]*schedWorker, W)
+		byEID := map[uint64]*schedWorker{}
+		for k := range workers {
+			wk := &schedWorker{id: k, eid: uint64(2 * (k + 1)), release: make(chan struct{})} // even ids: accepted by filters
+			if rng.IntN(4) == 0 {
+				wk.eid++ // an odd id: rejected by the filtered handlers
+			}
+			workers[k] = wk
+			byEID[wk.eid] = wk
+		}
+		w.Gate = func(point string, reg int, eid uint64) {
+			wk := byEID[eid]
+			if wk == nil {
+				return
+			}
+			msgs <- schedMsg{w: wk, point: point}
+			<-wk.release
+		}
+		cancelled := map[uint64]bool{}
+		for _, wk := range workers {
+			wk := wk
+			tt := rng.IntN(2)
+			dead := rng.IntN(6) == 0
+			if dead {
+				cancelled[wk.eid] = true
+			}
+			go func() {
+				msgs <- schedMsg{w: wk, point: "start"}
+				<-wk.release
+				var ctx context.Context = context.Background()
+				if dead {
+					c, cancel := context.WithCancel(ctx)
+					cancel()
+					ctx = c
+				}
+				w.PublishID(wk.id, tt, &conc.NoisyCtx{Context: ctx, W: w, EID: wk.eid}, wk.eid)
+				msgs <- schedMsg{w: wk, finish: true}
+			}()
+		}
+		parked := map[*schedWorker]bool{}
+		for range workers {
+			m := <-msgs
+			parked[m.w] = true
+		}
+		// registry operations the controller interposes
+		nOps := 1 + rng.IntN(5)
+		var sched []string
+		live := W
+		for live > 0 || nOps > 0 {
+			if nOps > 0 && (live == 0 || rng.IntN(3) == 0) {
+				nOps--
+				tt := rng.IntN(2)
+				switch x := rng.IntN(10); {
+				case x < 4:
+					w.Subscribe(80, mk(tt))
+					sched = append(sched, "sub")
+				case x < 8 && len(pre) > 0:
+					j := rng.IntN(len(pre))
+					w.Unsubscribe(80, pre[j])
+					pre = append(pre[:j], pre[j+1:]...)
+					sched = append(sched, "unsub")
+				case x < 9:
+					w.Clear(80, tt)
+					sched = append(sched, "clear")
+				default:
+					w.Count(80, tt)
+					sched = append(sched, "count")
+				}
+				continue
+			}
+			// advance one parked publisher to its next yield point
+			var cand []*schedWorker
+			for _, wk := range workers {
+				if parked[wk] && !wk.done {
+					cand = append(cand, wk)
+				}
+			}
+			wk := cand[rng.IntN(len(cand))]
+			parked[wk] = false
+			wk.release <- struct{}{}
+			m := <-msgs
+			if m.finish {
+				m.w.done = true
+				live--
+				sched = append(sched, fmt.Sprintf("w%d.", m.w.id))
+			} else {
+				parked[m.w] = true
+				sched = append(sched, fmt.Sprintf("w%d@%s", m.w.id, m.point))
+			}
+		}
+		w.Gate = nil
+		q := quiesce(w, 2)
+		h := conc.Index(w.Log)
+		for _, f := range conc.CheckIntervals(w, h, q, cancelled) {
+			run.Violation("schedule:"+f.Sig, f.Desc, map[string]any{"case": i, "schedule": sched, "history": w.Log})
+		}
+		_, mut := conc.OverlapSignature(w.Log)
+		run.Case(strings.Join(sched, " "), mut)
+		run.Count("schedule_steps", int64(len(sched)))
+		if i == 0 {
+			run.Sample(map[string]any{"schedule": sched, "publishers": W})
+		}
+	}
+}
